@@ -41,6 +41,7 @@ def _arm(d, world, acts):
     kind = d.choice(("storage", "provider"))
     acts.append(["crash", kind, d.int(0, 10 if kind == "storage" else 3)])
     world.guard_retouch = "window"
+    world.crash_mode = True
 
 
 def gen(d, tier):
@@ -60,6 +61,7 @@ def crash_guard_ok(trace, always=False):
     cfg = trace["cfg"]
     world = World(path_style=(cfg.get("L") == "path", cfg.get("R") == "path"))
     world.guard_retouch = True if always else False
+    world.crash_mode = True
     for a in trace["acts"]:
         if a[0] == "u":
             op = tuple(a[2:])
@@ -138,6 +140,7 @@ def gen_enum(d, tier):
 
     def init(world):
         world.guard_retouch = True      # a crash may land anywhere: the guard holds in every window
+        world.crash_mode = True
     acts, world = gen_history(d, cfg, sides=sides, n_ops=(2, 6), with_base=d.bool(), world_init=init)
     return {"cfg": cfg, "acts": acts, "meta": {"excluded": dict(world.excluded)}}
 
